@@ -63,6 +63,11 @@ var nilType = reflect.TypeOf(&struct{}{})
 // reuse replaces the value of the valueReflect. If parent in the data tree is a map, parentMap and parentMapKey
 // must be provided so that the returned value may be set and deleted.
 func (r *valueReflect) reuse(value reflect.Value, cacheEntry *TypeReflectCacheEntry, parentMap, parentMapKey *reflect.Value) (Value, error) {
+	// an interface stands for the value it holds: what applies is the conversion of that value's type
+	for value.Kind() == reflect.Interface && !value.IsNil() {
+		value = value.Elem()
+		cacheEntry = nil
+	}
 	if cacheEntry == nil {
 		cacheEntry = TypeReflectEntryOf(value.Type())
 	}
@@ -95,9 +100,9 @@ func (r *valueReflect) mustReuse(value reflect.Value, cacheEntry *TypeReflectCac
 }
 
 func dereference(val reflect.Value) reflect.Value {
-	kind := val.Kind()
-	if (kind == reflect.Interface || kind == reflect.Ptr) && !safeIsNil(val) {
-		return val.Elem()
+	// through every level: an interface may hold a pointer, a pointer may point to a pointer
+	for kind := val.Kind(); (kind == reflect.Interface || kind == reflect.Ptr) && !safeIsNil(val); kind = val.Kind() {
+		val = val.Elem()
 	}
 	return val
 }
